@@ -38,7 +38,7 @@ func encode(msgType byte, tag []byte, view []uint16) []byte {
 
 type memberParty struct{ m *discovery.Member }
 
-func (p *memberParty) HandleMessage(m *tss.IncMessage) { p.m.HandleMessage(m.Source, m.Data) }
+func (p *memberParty) HandleMessage(m *tss.IncMessage)                      { p.m.HandleMessage(m.Source, m.Data) }
 func (p *memberParty) Sign(context.Context, []byte, string) ([]byte, error) { return nil, nil }
 func (p *memberParty) KeyGen(context.Context, int, int) ([]byte, error)     { return nil, nil }
 func (p *memberParty) SetStoredData([]byte)                                 {}
@@ -60,12 +60,12 @@ func (k scfg) id() string {
 }
 
 type compl struct {
-	list   []uint16
-	runs   int
-	heard  map[uint16]bool // members that had sent this one a message when the continuation ran
-	err    error
-	ret    bool
-	at     time.Duration
+	list  []uint16
+	runs  int
+	heard map[uint16]bool // members that had sent this one a message when the continuation ran
+	err   error
+	ret   bool
+	at    time.Duration
 }
 
 type out struct {
@@ -88,10 +88,10 @@ func isIn(x uint16, l []uint16) bool {
 func (k scfg) byzActions() [][3]interface{} { return nil }
 
 type byzAct struct {
-	label  string
-	from   uint16
-	to     uint16
-	data   []byte
+	label string
+	from  uint16
+	to    uint16
+	data  []byte
 }
 
 func (k scfg) actions() []byzAct {
